@@ -54,6 +54,11 @@ class IsoTpStateMachine:
         except ValueError:
             return  # unknown CAN ID
 
+        if len(data) < 1 or (data[0] >> 4 == IsoTp.FRAME_TYPE_FIRST and len(data) < 2):
+            # the frame is too short to contain the ISO-TP protocol
+            # control information. Ignore it.
+            return
+
         # decode the isotp segment
         frame_type, _ = bitstruct.unpack("u4u4", data)
         assert isinstance(frame_type, int)
